@@ -103,10 +103,12 @@ impl writer::Stats<SimWorld> for PRec {
     }
 }
 
-type Cuc = Cucumber<SimWorld, SimParser, (), SimRunner, PRec, cli::Empty>;
+type Cuc = CucOf<PRec>;
+/// The pipeline with any writer in it (world T configures its own the same way).
+pub type CucOf<Wr> = Cucumber<SimWorld, SimParser, (), SimRunner, Wr, cli::Empty>;
 
 /// The runner-related builder calls, through `Cucumber`'s forwarding methods.
-fn configure(mut c: Cuc, plan: &Plan) -> Cuc {
+pub fn configure<Wr: cucumber::Writer<SimWorld>>(mut c: CucOf<Wr>, plan: &Plan) -> CucOf<Wr> {
     let cfg = &plan.cfg;
     c = c.steps(runa::build_collection(plan));
     match cfg.builder_concurrency {
@@ -130,7 +132,7 @@ fn configure(mut c: Cuc, plan: &Plan) -> Cuc {
     c
 }
 
-fn hooks_and_classifiers(mut c: Cuc, plan: &Plan) -> Cuc {
+pub fn hooks_and_classifiers<Wr: cucumber::Writer<SimWorld>>(mut c: CucOf<Wr>, plan: &Plan) -> CucOf<Wr> {
     let cfg = &plan.cfg;
     if cfg.custom_which {
         c = c.which_scenario(runa::which_custom as cucumber::runner::basic::WhichScenarioFn);
